@@ -66,7 +66,7 @@ func c10Routes(proto string) []routeSpec {
 }
 
 func c10Engine(c *lab.Ctx) {
-	c.Rule("running MOSN with counted breaker resources; histories of mixed outcomes at concurrency 8 x 3 protocols; continuous sign sampling, conservation at quiescence, a go-away connection closed with three requests in flight on it, bursts of 12 simultaneous admissions at max_requests=3, 5xx answers that arrive 0..20 ms before the global timeout of a retrying route, threshold trip tests (max_requests=3, max_retries=1); distinct = (protocol, route, plan class, outcome) + book signatures")
+	c.Rule("running MOSN with counted breaker resources; histories of mixed outcomes at concurrency 8 x 3 protocols; continuous sign sampling, conservation at quiescence, a go-away connection closed with three requests in flight on it, bursts of 12 simultaneous admissions at max_requests=3, 5xx answers that arrive 0..20 ms before the global timeout of a retrying route, a per-try timer parked at its hook point and released while the next attempt is being set up (HTTP/1 pool), threshold trip tests (max_requests=3, max_retries=1); distinct = (protocol, route, plan class, outcome) + book signatures")
 	e, err := newEngine(c, engineProtos, c10Routes, c10ClusterExtra, nil)
 	if err != nil {
 		c.Require("mosn started", false, err.Error())
@@ -104,6 +104,13 @@ func c10Engine(c *lab.Ctx) {
 			time.Sleep(2 * time.Millisecond)
 		}
 	}()
+	if os.Getenv("VERIF_C10_ONLY") == "ptry" { // development switch: only the steered per-try case
+		c10PerTryDuringSetup(c, e, "Http1")
+		c10Conservation(c, e, clusters, "after per-try timeouts during the set-up of a retry Http1", false)
+		atomic.StoreInt32(&stop, 1)
+		sg.Wait()
+		return
+	}
 	rng := c.Rand("engine")
 	rounds := c.Pick(3, 12)
 	perClient := c.Pick(10, 25)
@@ -185,6 +192,10 @@ func c10Engine(c *lab.Ctx) {
 		c10Edge(c, e, proto)
 		c10Conservation(c, e, clusters, "after timeouts at the edge of a retry "+proto, false)
 	}
+	// (2d') a per-try timeout that fires while the next attempt is being set up (HTTP/1 pool: the hook points of its accounting
+	// frame the window)
+	c10PerTryDuringSetup(c, e, "Http1")
+	c10Conservation(c, e, clusters, "after per-try timeouts during the set-up of a retry Http1", false)
 	// (2e) a retry that finds no healthy host any more: the only host of the cluster is marked unhealthy while the first attempt is
 	// in flight, then the upstream closes the connection without answering
 	for _, proto := range engineProtos {
@@ -999,6 +1010,62 @@ func (t *c10TraceT) unbalanced() map[uint64][]string {
 		}
 	}
 	return out
+}
+
+// c10PerTryDuringSetup: route "retry" (per-try timeout 200 ms, two retries). The first attempt is not answered and its connection is
+// closed by the upstream after 260 ms; the per-try timer of that attempt, which fires at 200 ms, is parked at its hook point
+// (proxy.perTryTimer.beforeCAS) and released when the retry has taken its connection from the HTTP/1 pool and been counted
+// (http.pool.request.inc), i.e. while the second attempt exists but has no stream sender yet; the accounting goroutine then yields
+// for 40 ms so that the timer runs there. The second attempt is never answered, the third is. Whatever the client gets, every
+// attempt that was counted must be given back: judged by the conservation check that follows. One request at a time, nothing
+// else running.
+func c10PerTryDuringSetup(c *lab.Ctx, e *engine, proto string) {
+	n := c.Pick(3, 8)
+	var steered int64
+	for i := 0; i < n; i++ {
+		c.Case("c10 per-try timeout during retry set-up %s #%d", proto, i)
+		release := make(chan struct{})
+		var relOnce, parkOnce sync.Once
+		var incs, parked int64
+		verifhook.Set("proxy.perTryTimer.beforeCAS", func(string, uint64) {
+			first := false
+			parkOnce.Do(func() { first = true })
+			if !first {
+				return
+			}
+			atomic.StoreInt64(&parked, 1)
+			select {
+			case <-release:
+			case <-time.After(3 * time.Second):
+			}
+		})
+		verifhook.Set("http.pool.request.inc", func(string, uint64) {
+			if atomic.AddInt64(&incs, 1) == 2 && atomic.LoadInt64(&parked) == 1 {
+				relOnce.Do(func() {
+					close(release)
+					atomic.AddInt64(&steered, 1)
+				})
+				time.Sleep(40 * time.Millisecond)
+			}
+		})
+		cl := e.newClient(proto, fmt.Sprintf("%s-ptry-%d", proto, i))
+		tok := fmt.Sprintf("ptry-%d-%s-%d", c.Batch, proto, i)
+		ev := cl.do(reqFor(proto, "retry", tok, "d260:s503|stall|ok"))
+		cl.close()
+		verifhook.Set("proxy.perTryTimer.beforeCAS", nil)
+		verifhook.Set("http.pool.request.inc", nil)
+		relOnce.Do(func() { close(release) })
+		if os.Getenv("VERIF_C10_ONLY") != "" {
+			fmt.Fprintf(os.Stderr, "PTRY #%d ev=%s/%d attempts=%d incs=%d parked=%d\n", i, ev.Kind, ev.Status, len(e.log.upsFor(tok)), atomic.LoadInt64(&incs), atomic.LoadInt64(&parked))
+		}
+		c.Eval(1)
+		c.Distinct(fmt.Sprintf("ptry-setup|%s|%s%d|attempts=%d|steered=%v", proto, ev.Kind, ev.Status, len(e.log.upsFor(tok)), atomic.LoadInt64(&incs) >= 2 && atomic.LoadInt64(&parked) == 1))
+	}
+	if os.Getenv("VERIF_C10_TRACE") != "" {
+		c10Trace.install()
+	}
+	c.Count("per-try-timer-released-during-retry-setup:"+proto, atomic.LoadInt64(&steered))
+	c.Require("per-try timer released during the set-up of a retry", atomic.LoadInt64(&steered) > 0, fmt.Sprint(steered))
 }
 
 // c10RetryNoHost: route "oneretry" (single-host cluster, retry on reset, max_retries = 1). The first attempt reaches the upstream,
